@@ -21,6 +21,8 @@ package unpackinfo
 //@   ghost $sawSymlink Bool = false
 //@   ghost $lastLstatErr Iface = nil
 //@   requires C19.header: header != nil
+// the destination is absolute (Unpack makes it so): containment is decided by comparing cleaned paths textually
+//@   requires C01.dst-absolute: isAbs(dst)
 //@   requires C19.name: header.Name != ""
 // containment is promised for the entries that materialise (file, directory, link); Unpack creates nothing for pax header
 // entries (its own obligation), so what NewUnpackInfo answers for them does not matter to the property
